@@ -799,6 +799,12 @@ class Parser:
         return lexpos - max(last_newline, 0)
 
 
+_TOO_DEEP_MESSAGE = (
+    "Definitions too deeply nested or chained "
+    "(imports, scopes or type references exceed the recursion limit)."
+)
+
+
 def parse(filepath: str, traditional_mode: bool = False) -> Proto:
     """Parse a bitproto from given filepath.
 
@@ -807,7 +813,10 @@ def parse(filepath: str, traditional_mode: bool = False) -> Proto:
     :param traditional_mode: Whether enforcing parsing in traditional mode. Will rases if
        extensible grammar is used in traditional mode.
     """
-    return Parser(traditional_mode=traditional_mode).parse(filepath)
+    try:
+        return Parser(traditional_mode=traditional_mode).parse(filepath)
+    except RecursionError:
+        raise GrammarError(message=_TOO_DEEP_MESSAGE, filepath=filepath)
 
 
 def parse_string(
@@ -816,6 +825,9 @@ def parse_string(
     """
     Parse a bitproto from string.
     """
-    return Parser(traditional_mode=traditional_mode).parse_string(
-        content, filepath=filepath
-    )
+    try:
+        return Parser(traditional_mode=traditional_mode).parse_string(
+            content, filepath=filepath
+        )
+    except RecursionError:
+        raise GrammarError(message=_TOO_DEEP_MESSAGE, filepath=filepath)
